@@ -338,7 +338,8 @@ def instantiate (f : Func) (cattrs : List (String × FAttr)) (cins : List (Optio
 
 /-- pass state: next fresh value id; `_inlined_functions`; number of inlined call nodes; `stuck` = the
     unrolling budget of the MODEL ran out (the Python loop has no budget: it relies on `requires`); `raised` =
-    an instantiated call returned None for one of its outputs (`Inst.bad`: the Python pass raises there) -/
+    an instantiated call returned None for one of its outputs (`Inst.bad`) or the call has not as many outputs as
+    the function: the Python pass raises there (in `replace_nodes_and_values`) -/
 structure ISt where
   next : Nat
   inlined : List OpId
@@ -374,7 +375,12 @@ def inlG (tbl : List Func) (crit : OpId → Bool) (deeper : Deeper) (st : ISt) (
     after the current one (_linked_list.py:106-123), so the nodes cloned for a call are visited next
     (`deeper`), before the rest of the list; the values that replace the call's outputs are read after
     that visit (the replacements made during it apply to them as to any other use).  `outs` = the
-    current outputs of this graph (`replace_graph_outputs=True`). -/
+    current outputs of this graph (`replace_graph_outputs=True`).
+    `replace_nodes_and_values(..., old_values=node.outputs, new_values=values)` raises when one of the first
+    `len(node.outputs)` replacement values is None (AttributeError) and when the call has not exactly as many
+    outputs as the function (`replace_all_uses_with`: ValueError "number of values and replacements must match",
+    _convenience:540-548); both set `raised` (the call sites of a model that satisfies `validF` have at most as many
+    outputs as the function: fewer is the case that raises). -/
 def inlNodes (tbl : List Func) (crit : OpId → Bool) (deeper : Deeper) :
     ISt → Subst → List VId → List FNode → IRes
   | st, σ, outs, [] => ⟨st, [], outs, σ⟩
@@ -382,7 +388,7 @@ def inlNodes (tbl : List Func) (crit : OpId → Bool) (deeper : Deeper) :
     match (if crit op then findFunc tbl op else none) with
     | some f =>
       let inst := instantiate f attrs (substIns σ ins) st.next
-      let d := deeper (st.addInlined op inst.next inst.bad) inst.nodes
+      let d := deeper (st.addInlined op inst.next (inst.bad || nouts.length != f.outputs.length)) inst.nodes
       let pairs := nouts.zip (inst.outvals.map d.2.2.app)
       let r := inlNodes tbl crit deeper d.1 (pairs ++ σ) (outs.map (fun o => (pairs.lookup o).getD o)) ns
       ⟨r.st, d.2.1 ++ r.nodes, r.outs, r.σ⟩
@@ -507,7 +513,8 @@ def ruoModel (processFunctions : Bool) (m : FModel) : FModel :=
 
 /-- a call node and the function it calls fit: no graph attributes (inliner.py:207-214 raises), distinct
     attribute names (a dictionary), not more inputs than the function has (216-220 raises), not more
-    outputs than the function has, and no attribute of the call is a REFERENCE while the function declares a
+    outputs than the function has (with FEWER the real pass raises: flag `raised` of the run, `inlNodes`),
+    and no attribute of the call is a REFERENCE while the function declares a
     default for it (the Cloner then keeps the reference and the default is lost when the outer parameter is
     unbound).  A function output that is a function input which the call does not supply makes the real pass
     raise; that is not a condition here (it is not stable under cloning a body into a call that supplies fewer
